@@ -2050,3 +2050,8 @@ Proof.
   induction es as [|e es IH]; intros c Hn; [exact Hn|]. cbn [run fold_left]. apply IH. apply no_panic_step. exact Hn.
 Qed.
 
+
+(** since /repo dd38a4c localHead is the higher of pending head and store head:
+    in EVERY configuration the subjective head is at or above the shim's store head *)
+Lemma local_head_ge_cache (c : cfg) : h_height (c_cache c) <= h_height (local_head c).
+Proof. unfold local_head. rewrite pick_height. destruct (ranges_head (c_pend c)); lia. Qed.
